@@ -45,7 +45,7 @@ def notes(agg):
 def conclude(agg):
     c = agg['counters']
     return [f'monitor counter {k} is zero' for k in ('san/reads', 'san/cells', 'permutations_run', 'thread_orders_run', 'levels_wide', 'cases/reuse_sharing',
-                                                     'logic_permutations', 'level_structure_checks', 'lsan/operand_checks', 'rescheduled_after_rewiring')
+                                                     'logic_permutations', 'level_structure_checks', 'lsan/operand_checks', 'rescheduled_after_rewiring', 'very_wide_cases')
             if c.get(k, 0) == 0 and not (k.startswith('san/') and c.get('san/unattributed', 0)) and not (k.startswith('lsan/') and c.get('lsan/unattributed', 0))]
 
 
@@ -95,7 +95,8 @@ def check_case(case, ctx):
         ref_s, ref_c = np.asarray(ref.s).copy(), np.asarray(ref.c)[:int(ref.c_len)].copy()      # rows below c_len are signal memory; buffers may be padded
 
         # ---- sanitizer: race detector + ownership on cpu and mock-gpu kernels ---------------------
-        for cls, mode in (('cpu', 'default'), ('cuda', 'default'), ('cuda', 'random')):
+        light = bool(case.get('light'))      # very wide levels (hundreds of operations): static structure + permuted runs, without the per-access sanitizer
+        for cls, mode in (() if light else (('cpu', 'default'), ('cuda', 'default'), ('cuda', 'random'))):
             rep2 = []
             sim = WC.make_sim(r, cls=cls)
             san = shadow.Sanitizer(sim, b.c, lambda kk, m: rep2.append((kk, m)), case['strip_forks'])
@@ -158,7 +159,7 @@ def check_case(case, ctx):
             ls = LogicSim(b.c, sims=8, m=m, c_reuse=case['c_reuse'], strip_forks=case['strip_forks'])
             moved = permute_levels(ls, nrng)
             rep3 = []
-            lsan = shadow_logic.LogicSanitizer(ls, b.c, lambda kk, mm: rep3.append((kk, mm)), case['strip_forks']) if j == 0 else None
+            lsan = shadow_logic.LogicSanitizer(ls, b.c, lambda kk, mm: rep3.append((kk, mm)), case['strip_forks']) if (j == 0 and not light) else None
             ls.s[0] = stim
             ls.s_to_c(); ls.c_prop(); ls.c_to_s()
             if lsan is not None:
@@ -175,7 +176,7 @@ def check_case(case, ctx):
                 return
     with ctx.guard('simulation-raises', case):
         from .. import graph
-        what = graph.rewire_same_counts(b.c, random.Random(case['stim_seed']), forks_only=True)
+        what = None if case.get('light') else graph.rewire_same_counts(b.c, random.Random(case['stim_seed']), forks_only=True)
         if what:
             # same Circuit object, same node/line counts, different wiring: the schedule must be derived afresh
             ctx.count('rescheduled_after_rewiring')
@@ -210,10 +211,16 @@ def run(spec, ctx):
             case['net'] = G.gen_net(rng, n_in=rng.randint(3, 6), n_gates=rng.randint(10, 40), n_ff=rng.choice([0, 2]), feats=case['feats'])
             for g in case['net']['gates']:
                 pass
-        case['c_reuse'] = rng.random() < 0.6
-        case['k'] = spec['k']
+        if i == 2:
+            # levels several hundred operations wide (layered circuit): thresholds such as 'every 256 operations' only show here
+            case['net'] = G.gen_net(rng, n_in=rng.randint(6, 12), n_gates=rng.choice([500, 700]), n_ff=rng.choice([0, 2]), feats=[], wide=rng.choice([260, 300]), style='v')
+            case['light'] = True
+            case['caps'] = 4
+            ctx.count('very_wide_cases')
+        case['c_reuse'] = rng.random() < 0.6 or i == 2
+        case['k'] = spec['k'] if i != 2 else 2
         case['lm'] = rng.choice([2, 4, 8])
-        case['sims'] = rng.choice([1, 2, 3, 5] * 5 + [33])
+        case['sims'] = rng.choice([1, 2, 3, 5] * 5 + [33]) if i != 2 else 2
         check_case(case, ctx)
 
 
